@@ -243,6 +243,7 @@ pub fn check(ctx: &mut Ctx) {
         }
     }
     check_large(ctx);
+    check_big_int_sums(ctx);
 }
 
 /// inputs large enough to cross the size thresholds an implementation may have (small-set or
@@ -370,6 +371,75 @@ fn check_large(ctx: &mut Ctx) {
             F::Agree => ctx.case("model", &key, "pass", serde_json::json!({"query": q, "rows": rows})),
             F::Skip(w) => ctx.case("model", "", "skip", serde_json::json!({"why": w.split(':').next().unwrap_or("").to_string()})),
             F::Disagree(d) => ctx.case("model", &key, "fdis", serde_json::json!({"what": d, "case": info})),
+        }
+    }
+}
+
+/// integer sums whose PARTIAL sums leave the i64 range in some arrival orders while the total
+/// (and every partial sum, as a double) is exactly representable: multiples of 10^18. "Exactly for
+/// … integer sums": every permutation and every split must give the same total.
+fn check_big_int_sums(ctx: &mut Ctx) {
+    let n = ctx.budget(60, 1500);
+    for _ in 0..n {
+        let mut r = ctx.rng.fork();
+        let k = 3 + r.below(3);
+        let coef: Vec<i64> = (0..k).map(|_| *r.pick(&[4i64, 4, 3, -5, 9, -9, 8, 1, -2, 6])).collect();
+        let docs: Vec<String> = coef.iter().enumerate().map(|(i, c)| format!("{{\"g\":\"a\",\"v\":{}000000000000000000,\"i\":{}}}", c, i)).collect();
+        let q = "* | json | sum(v) as s, count as c by g";
+        let join = |ds: &[String]| -> Vec<u8> { ds.iter().flat_map(|d| d.bytes().chain(std::iter::once(b'\n'))).collect() };
+        let key = format!("big-int-sums:{:?}", coef);
+        let want: f64 = coef.iter().map(|c| *c as f64 * 1e18).sum();
+        let sum_of = |input: &[u8]| -> Option<f64> {
+            let r = imp::run(q, input, "json", 10);
+            match canon::parse(String::from_utf8_lossy(&r.stdout).trim_end()) {
+                Ok(J::Arr(rows)) if rows.len() == 1 => match &rows[0] {
+                    J::Obj(kvs) => f(kvs.iter().find(|kv| kv.0 == "s").map(|kv| &kv.1)),
+                    _ => None,
+                },
+                _ => None,
+            }
+        };
+        let mut bad: Option<String> = None;
+        // all permutations for ≤ 4 rows, a sample otherwise
+        let mut perm: Vec<usize> = (0..k).collect();
+        for round in 0..(if k <= 4 { 24 } else { 40 }) {
+            if k <= 4 {
+                // next lexicographic permutation
+                if round > 0 {
+                    let mut i = k - 1;
+                    while i > 0 && perm[i - 1] >= perm[i] { i -= 1; }
+                    if i == 0 { break; }
+                    let mut j = k - 1;
+                    while perm[j] <= perm[i - 1] { j -= 1; }
+                    perm.swap(i - 1, j);
+                    perm[i..].reverse();
+                }
+            } else {
+                r.shuffle(&mut perm);
+            }
+            let p: Vec<String> = perm.iter().map(|i| docs[*i].clone()).collect();
+            match sum_of(&join(&p)) {
+                Some(s) if s == want => {}
+                other => {
+                    bad = Some(format!("order {:?}: sum {:?}, the total is {}", perm.iter().map(|i| coef[*i]).collect::<Vec<_>>(), other, want));
+                    break;
+                }
+            }
+            // split after every prefix: sums add
+            for cut in 1..k {
+                let (a, b) = (sum_of(&join(&p[..cut])), sum_of(&join(&p[cut..])));
+                if let (Some(a), Some(b)) = (a, b) {
+                    if a + b != want {
+                        bad = Some(format!("order {:?} cut {}: sum(A) + sum(B) = {} + {} ≠ {}", perm, cut, a, b, want));
+                    }
+                }
+            }
+            if bad.is_some() { break; }
+        }
+        let info = serde_json::json!({"query": q, "values": coef.iter().map(|c| format!("{}e18", c)).collect::<Vec<_>>()});
+        match bad {
+            Some(w) => ctx.case("big-int-sums", &key, "viol", serde_json::json!({"class": "", "what": w, "case": info})),
+            None => ctx.case("big-int-sums", &key, "pass", info),
         }
     }
 }
